@@ -376,6 +376,10 @@ CHECK_DEADLOCK FALSE
     from vt.checks import xclientsetup
 
     xclientsetup.setup_part(ctx)
+    # the main loop with the real get_task / send_callback: BeaconLoop.tla
+    from vt.checks import xbeaconloop
+
+    xbeaconloop.loop_part(ctx)
     ctx.notes["rule"] = ("dispatch: every registry state of Client.tla's dumped graph (<= MaxReg registrations over {sleep, cd, empty task, catch-all} x handler ids, 5 method sets) "
                          "rebuilt through register_task / @handle / @catch_all and driven through the real beacon loop for every single dispatch, every ordered pair and every triple of "
                          "the same command; set-ups: boundary and random ids, ASCII / long / non-ASCII names for 1024 and 2048 bit keys, sleeptime x jitter samples; distinct = histories + set-ups")
